@@ -1,7 +1,221 @@
-(* C10 — property theorems only: each closed by [exact] of a lemma proved elsewhere. *)
-From Coq Require Import List String.
-From Helm Require Import Storage.Spec Storage.Mem Storage.Kube Storage.Proofs Gen.SystemLabels.
+(* C10 — All storage backends behave as the same faithful key-value store.
+   Property theorems only: each closed by [exact] of a lemma proved under Storage/. *)
+From Coq Require Import List String Bool Arith NArith Permutation.
+From Helm Require Import Common.Assoc Common.Strs Storage.Spec Storage.Mem Storage.Kube
+  Storage.Proofs Storage.Refine Storage.MemProofs Storage.KubeProofs Storage.Corollaries
+  Storage.Examples Storage.Tables Gen.SystemLabels.
+Import ListNotations.
+Local Open Scope string_scope.
 
+(* ---------- the storage key ---------- *)
 Theorem C10_key_roundtrip : forall name ver, mem_parse_key (make_key name ver) = Some (name, ver).
 Proof. exact parse_make_key. Qed.
 Print Assumptions C10_key_roundtrip.
+
+Theorem C10_key_injective : forall n1 v1 n2 v2,
+  make_key n1 v1 = make_key n2 v2 -> n1 = n2 /\ v1 = v2.
+Proof. exact make_key_inj. Qed.
+Print Assumptions C10_key_injective.
+
+(* fixed defect F4: the key parser before commit 3386c57 rejects the key of "a.v1" rev 1 *)
+Theorem C10_mem_dotv_refuted :
+  exists name ver, mem_parse_key_prefix (make_key name ver) = None /\
+                   mem_parse_key (make_key name ver) = Some (name, ver).
+Proof. exact mem_dotv_refuted. Qed.
+Print Assumptions C10_mem_dotv_refuted.
+
+Example C10_mem_dotv_prefix_accepts_plain :
+  mem_parse_key_prefix (make_key "my.app" 12) = Some ("my.app", 12).
+Proof. exact mem_prefix_parser_plain. Qed.
+Print Assumptions C10_mem_dotv_prefix_accepts_plain.
+
+(* ---------- memory driver = reference map ---------- *)
+(* every call sequence whose written releases live in namespace ns0, from an empty driver
+   configured for any namespace ns1: step by step the same Ok / error class / release, and
+   List/Query results equal as multisets *)
+Theorem C10_mem_refines_spec : forall (ns0 ns1 : string) (ops : list op),
+  Forall (op_in_ns ns0) ops ->
+  Forall2 out_equiv (mem_run (mkMem ns1 []) ops) (spec_run [] ops).
+Proof. exact mem_refines_spec. Qed.
+Print Assumptions C10_mem_refines_spec.
+
+Example C10_mem_refines_spec_ex :
+  Forall (op_in_ns "team-a") ex_ops /\ mem_run mem_init ex_ops = ex_outs /\ spec_run [] ex_ops = ex_outs.
+Proof. exact ex_mem. Qed.
+Print Assumptions C10_mem_refines_spec_ex.
+
+(* a call the reference map fails (create-existing, get/update/delete-missing, empty query)
+   fails with the same class and leaves the driver exactly as it was *)
+Theorem C10_mem_error_unchanged : forall (ns0 : string) (ops : list op) (o : op) (e : err),
+  Forall (op_in_ns ns0) ops -> op_in_ns ns0 o ->
+  snd (spec_step (spec_exec [] ops) o) = RErr e ->
+  mem_step (mem_exec (mkMem ns0 []) ops) o = (mem_exec (mkMem ns0 []) ops, RErr e).
+Proof. exact mem_error_unchanged. Qed.
+Print Assumptions C10_mem_error_unchanged.
+
+Theorem C10_mem_create_existing : forall (ns0 : string) (ops : list op) (r : rel),
+  Forall (op_in_ns ns0) ops -> ns_of r = ns0 ->
+  aget (key_of r) (spec_exec [] ops) <> None ->
+  mem_step (mem_exec (mkMem ns0 []) ops) (OCreate r) = (mem_exec (mkMem ns0 []) ops, RErr EExists).
+Proof. exact mem_create_existing. Qed.
+Print Assumptions C10_mem_create_existing.
+
+Theorem C10_mem_missing_key : forall (ns0 : string) (ops : list op) (n : string) (v : nat),
+  Forall (op_in_ns ns0) ops ->
+  aget (make_key n v) (spec_exec [] ops) = None ->
+  let m := mem_exec (mkMem ns0 []) ops in
+  mem_step m (OGet n v) = (m, RErr ENotFound) /\
+  mem_step m (ODelete n v) = (m, RErr ENotFound) /\
+  (forall r, rname r = n -> rver r = v -> ns_of r = ns0 -> mem_step m (OUpdate r) = (m, RErr ENotFound)).
+Proof. exact mem_missing_key. Qed.
+Print Assumptions C10_mem_missing_key.
+
+Theorem C10_mem_delete_returns : forall (ns0 : string) (ops : list op) (n : string) (v : nat) (r : rel),
+  Forall (op_in_ns ns0) ops ->
+  aget (make_key n v) (spec_exec [] ops) = Some r ->
+  let m := mem_exec (mkMem ns0 []) ops in
+  snd (mem_step m (ODelete n v)) = RRel r /\
+  snd (mem_step (fst (mem_step m (ODelete n v))) (OGet n v)) = RErr ENotFound.
+Proof. exact mem_delete_returns. Qed.
+Print Assumptions C10_mem_delete_returns.
+
+Theorem C10_mem_query_exact : forall (ns0 : string) (ops : list op) (q : list (string * string)),
+  Forall (op_in_ns ns0) ops ->
+  let m := mem_exec (mkMem ns0 []) ops in
+  let stored := map snd (spec_exec [] ops) in
+  match snd (mem_step m (OQuery q)) with
+  | RRels l => l <> [] /\ forall r, In r l <-> (In r stored /\ sys_match q r = true)
+  | RErr e => e = ENotFound /\ forall r, In r stored -> sys_match q r = false
+  | _ => False
+  end.
+Proof. exact mem_query_exact. Qed.
+Print Assumptions C10_mem_query_exact.
+
+Theorem C10_mem_list_exact : forall (ns0 : string) (ops : list op),
+  Forall (op_in_ns ns0) ops ->
+  exists l, snd (mem_step (mem_exec (mkMem ns0 []) ops) OList) = RRels l /\
+            Permutation l (map snd (spec_exec [] ops)).
+Proof. exact mem_list_exact. Qed.
+Print Assumptions C10_mem_list_exact.
+
+(* ---------- Secret / ConfigMap drivers = reference map ---------- *)
+(* hypotheses: the record body codec round-trips; written releases carry a label map that
+   avoids the system label names; queries select on name/owner/status/version with valid
+   label values.  Results are compared after dropping the system labels (strip_out);
+   Update of a missing key answers "an error" (EOther) where the map says not-found. *)
+Theorem C10_kube_refines_spec :
+  forall (B : Type) (enc : rel -> B) (dec : B -> option rel) (valid_label_value : string -> bool),
+  (forall r, dec (enc r) = Some r) ->
+  forall ops : list op,
+  Forall (kube_op_ok valid_label_value) ops ->
+  Forall2 out_refines (map strip_out (kube_run B enc dec valid_label_value [] ops)) (spec_run [] ops).
+Proof. exact kube_refines_spec. Qed.
+Print Assumptions C10_kube_refines_spec.
+
+(* C10_labels: Get/Delete return exactly the stored release (user labels only, no
+   projection needed); every release returned by List/Query carries user labels, one
+   time-stamp label and the four system labels *)
+Theorem C10_labels :
+  forall (B : Type) (enc : rel -> B) (dec : B -> option rel) (valid_label_value : string -> bool),
+  (forall r, dec (enc r) = Some r) ->
+  forall ops : list op,
+  Forall (kube_op_ok valid_label_value) ops ->
+  Forall labels_shape (kube_run B enc dec valid_label_value [] ops).
+Proof. exact kube_labels. Qed.
+Print Assumptions C10_labels.
+
+Theorem C10_kube_get_exact :
+  forall (B : Type) (enc : rel -> B) (dec : B -> option rel) (valid_label_value : string -> bool),
+  (forall r, dec (enc r) = Some r) ->
+  forall ops : list op,
+  Forall (kube_op_ok valid_label_value) ops ->
+  Forall2 (fun ok os => forall r, ok = RRel r -> os = RRel r)
+          (kube_run B enc dec valid_label_value [] ops) (spec_run [] ops).
+Proof. exact kube_get_exact. Qed.
+Print Assumptions C10_kube_get_exact.
+
+Example C10_kube_refines_spec_ex :
+  Forall (kube_op_ok ex_valid) ex_ops /\ (forall r : rel, Some r = Some r) /\
+  ex_krun [] ex_ops = ex_kube_outs /\ map strip_out ex_kube_outs <> ex_kube_outs.
+Proof. exact ex_kube. Qed.
+Print Assumptions C10_kube_refines_spec_ex.
+
+Theorem C10_kube_error_unchanged :
+  forall (B : Type) (enc : rel -> B) (dec : B -> option rel) (valid_label_value : string -> bool),
+  (forall r, dec (enc r) = Some r) ->
+  forall (ops : list op) (o : op) (e : err),
+  Forall (kube_op_ok valid_label_value) ops -> kube_op_ok valid_label_value o ->
+  snd (spec_step (spec_exec [] ops) o) = RErr e ->
+  exists e', err_refines e' e /\
+    kube_step B enc dec valid_label_value (kube_exec B enc dec valid_label_value [] ops) o
+    = (kube_exec B enc dec valid_label_value [] ops, RErr e').
+Proof. exact kube_error_unchanged. Qed.
+Print Assumptions C10_kube_error_unchanged.
+
+Theorem C10_kube_create_existing :
+  forall (B : Type) (enc : rel -> B) (dec : B -> option rel) (valid_label_value : string -> bool),
+  (forall r, dec (enc r) = Some r) ->
+  forall (ops : list op) (r : rel),
+  Forall (kube_op_ok valid_label_value) ops -> labels_ok (rlabels r) ->
+  aget (key_of r) (spec_exec [] ops) <> None ->
+  kube_step B enc dec valid_label_value (kube_exec B enc dec valid_label_value [] ops) (OCreate r)
+  = (kube_exec B enc dec valid_label_value [] ops, RErr EExists).
+Proof. exact kube_create_existing. Qed.
+Print Assumptions C10_kube_create_existing.
+
+Theorem C10_kube_missing_key :
+  forall (B : Type) (enc : rel -> B) (dec : B -> option rel) (valid_label_value : string -> bool),
+  (forall r, dec (enc r) = Some r) ->
+  forall (ops : list op) (n : string) (v : nat),
+  Forall (kube_op_ok valid_label_value) ops ->
+  aget (make_key n v) (spec_exec [] ops) = None ->
+  let k := kube_exec B enc dec valid_label_value [] ops in
+  kube_step B enc dec valid_label_value k (OGet n v) = (k, RErr ENotFound) /\
+  kube_step B enc dec valid_label_value k (ODelete n v) = (k, RErr ENotFound) /\
+  (forall r, rname r = n -> rver r = v -> labels_ok (rlabels r) ->
+     exists e, kube_step B enc dec valid_label_value k (OUpdate r) = (k, RErr e) /\ e <> EExists).
+Proof. exact kube_missing_key. Qed.
+Print Assumptions C10_kube_missing_key.
+
+Theorem C10_kube_delete_returns :
+  forall (B : Type) (enc : rel -> B) (dec : B -> option rel) (valid_label_value : string -> bool),
+  (forall r, dec (enc r) = Some r) ->
+  forall (ops : list op) (n : string) (v : nat) (r : rel),
+  Forall (kube_op_ok valid_label_value) ops ->
+  aget (make_key n v) (spec_exec [] ops) = Some r ->
+  let k := kube_exec B enc dec valid_label_value [] ops in
+  snd (kube_step B enc dec valid_label_value k (ODelete n v)) = RRel r /\
+  snd (kube_step B enc dec valid_label_value
+         (fst (kube_step B enc dec valid_label_value k (ODelete n v))) (OGet n v)) = RErr ENotFound.
+Proof. exact kube_delete_returns. Qed.
+Print Assumptions C10_kube_delete_returns.
+
+Theorem C10_kube_query_exact :
+  forall (B : Type) (enc : rel -> B) (dec : B -> option rel) (valid_label_value : string -> bool),
+  (forall r, dec (enc r) = Some r) ->
+  forall (ops : list op) (q : list (string * string)),
+  Forall (kube_op_ok valid_label_value) ops -> kube_op_ok valid_label_value (OQuery q) ->
+  let k := kube_exec B enc dec valid_label_value [] ops in
+  let stored := map snd (spec_exec [] ops) in
+  match snd (kube_step B enc dec valid_label_value k (OQuery q)) with
+  | RRels l => l <> [] /\ forall r, In r (map strip_rel l) <-> (In r stored /\ sys_match q r = true)
+  | RErr e => e <> EExists /\ forall r, In r stored -> sys_match q r = false
+  | _ => False
+  end.
+Proof. exact kube_query_exact. Qed.
+Print Assumptions C10_kube_query_exact.
+
+Theorem C10_kube_list_exact :
+  forall (B : Type) (enc : rel -> B) (dec : B -> option rel) (valid_label_value : string -> bool),
+  (forall r, dec (enc r) = Some r) ->
+  forall ops : list op,
+  Forall (kube_op_ok valid_label_value) ops ->
+  exists l, snd (kube_step B enc dec valid_label_value (kube_exec B enc dec valid_label_value [] ops) OList) = RRels l /\
+            Permutation (map strip_rel l) (map snd (spec_exec [] ops)).
+Proof. exact kube_list_exact. Qed.
+Print Assumptions C10_kube_list_exact.
+
+(* ---------- table regenerated from pkg/storage/driver/util.go on every run ---------- *)
+Theorem C10_system_labels_table : system_labels = system_label_keys.
+Proof. exact system_labels_table. Qed.
+Print Assumptions C10_system_labels_table.
